@@ -715,3 +715,113 @@ func coqAttr(mi *methodInfo, goField string) string {
 	}
 	return "AKey " + vh.CoqString("?"+goField)
 }
+
+// ---- the request on the wire, for the model's encode_wire ----
+
+func coqPlace(m *dg.Method, attr string) string {
+	l := locFromMethod(m, attr)
+	switch {
+	case l == "implicit":
+		return `PHeader "Authorization"`
+	case strings.HasPrefix(l, "header:"):
+		return "PHeader " + vh.CoqString(http.CanonicalHeaderKey(strings.TrimPrefix(l, "header:")))
+	case strings.HasPrefix(l, "query:"):
+		return "PQuery " + vh.CoqString(strings.TrimPrefix(l, "query:"))
+	case l == "inline-body":
+		return "PBody " + vh.CoqString(attr)
+	}
+	return "PBodyWhole"
+}
+
+func coqCattr(mi *methodInfo, attr string) string { return coqAttr(mi, dg.GoField(attr)) }
+
+func coqOptBs(s string, ok bool) string {
+	if !ok {
+		return "None"
+	}
+	return "(Some " + coqBs(s) + ")"
+}
+
+// wireCase prints what the tapped request carried next to what the client was given:
+// (index, places, requirements, Basic pair, set fields, sent?, headers, query values, body attributes, whole body).
+func wireCase(idx int, mi *methodInfo, ex exchange, ob *rt.Obs) string {
+	m := mi.M
+	eff := effectiveReqs(mi.D, mi.S, m)
+	var places, fields, hdrs, qrys, body []string
+	hdrNames := []string{"Authorization"}
+	seenH := map[string]bool{"Authorization": true}
+	var qNames []string
+	for _, a := range payloadAttrs(m) {
+		if a == attrUser || a == attrPass {
+			continue
+		}
+		pl := coqPlace(m, a)
+		places = append(places, fmt.Sprintf("(%s, %s)", coqCattr(mi, a), pl))
+		if v, ok := ex.Creds[a]; ok {
+			fields = append(fields, fmt.Sprintf("mk_field (%s) (%s) %s", coqCattr(mi, a), pl, coqBs(v)))
+		}
+		switch l := wireLoc(m, a); {
+		case strings.HasPrefix(l, "header:"):
+			if n := http.CanonicalHeaderKey(strings.TrimPrefix(l, "header:")); !seenH[n] {
+				seenH[n] = true
+				hdrNames = append(hdrNames, n)
+			}
+		case strings.HasPrefix(l, "query:"):
+			qNames = append(qNames, strings.TrimPrefix(l, "query:"))
+		}
+	}
+	basic := "None"
+	if kindsOf(mi.D, eff)["basic"] {
+		basic = fmt.Sprintf("(Some (%s, %s))", coqBs(ex.Creds[attrUser]), coqBs(ex.Creds[attrPass]))
+	}
+	whole := "None"
+	if ob.Req != nil {
+		for _, n := range hdrNames {
+			vs := ob.Req.Headers[n]
+			v, ok := "", len(vs) == 1
+			if ok {
+				v = vs[0]
+				if strings.HasPrefix(v, "Basic ") {
+					if dec, err := base64.StdEncoding.DecodeString(strings.TrimPrefix(v, "Basic ")); err == nil {
+						v = "Basic " + string(dec) // base64 is left out of the model
+					}
+				}
+			}
+			if len(vs) > 1 {
+				v, ok = "?multiple values", true
+			}
+			hdrs = append(hdrs, fmt.Sprintf("(%s, %s)", vh.CoqString(n), coqOptBs(v, ok)))
+		}
+		q, _ := url.ParseQuery(ob.Req.Query)
+		for _, n := range qNames {
+			vs, ok := q[n]
+			v := ""
+			if ok && len(vs) > 0 {
+				v = vs[0]
+			}
+			qrys = append(qrys, fmt.Sprintf("(%s, %s)", vh.CoqString(n), coqOptBs(v, ok && len(vs) > 0)))
+		}
+		var b any
+		_ = json.Unmarshal([]byte(ob.Req.Body), &b)
+		switch x := b.(type) {
+		case string:
+			whole = coqOptBs(x, true)
+		case map[string]any:
+			done := map[string]bool{"note": true}
+			for _, a := range payloadAttrs(m) {
+				if s, ok := x[a].(string); ok {
+					done[a] = true
+					body = append(body, fmt.Sprintf("(%s, %s)", vh.CoqString(a), coqBs(s)))
+				}
+			}
+			for _, k := range vh.SortedKeys(x) { // anything else in the body is a leak: shown to the model as is
+				if !done[k] {
+					s, _ := x[k].(string)
+					body = append(body, fmt.Sprintf("(%s, %s)", vh.CoqString(k), coqBs(s)))
+				}
+			}
+		}
+	}
+	return fmt.Sprintf("(%d, %s, R_%s, %s, %s, %s, %s, %s, %s, %s)", idx, vh.CoqList(places), mi.Def, basic, vh.CoqList(fields),
+		vh.CoqBool(ob.Req != nil), vh.CoqList(hdrs), vh.CoqList(qrys), vh.CoqList(body), whole)
+}
